@@ -912,7 +912,7 @@ Proof.
            match get_act w' id with
            | Some a' => match a_fut a' with
                         | AfPending => set_act_fut id (match r with Ok b => AfVal b | Err e => AfExn e end)
-                        | _ => raise EInvalidState
+                        | _ => ret tt
                         end
            | None => raise EIndex
            end)) Q w1).
@@ -936,7 +936,7 @@ Proof.
                                 match get_act w' id with
                                 | Some a' => match a_fut a' with
                                              | AfPending => set_act_fut id (match r with Ok b => AfVal b | Err e => AfExn e end)
-                                             | _ => raise EInvalidState
+                                             | _ => ret tt
                                              end
                                 | None => raise EIndex
                                 end)) Q s''
@@ -944,7 +944,7 @@ Proof.
                                 match get_act w' id with
                                 | Some a' => match a_fut a' with
                                              | AfPending => set_act_fut id (AfExn e)
-                                             | _ => raise EInvalidState
+                                             | _ => ret tt
                                              end
                                 | None => raise EIndex
                                 end)) Q s''
